@@ -149,12 +149,9 @@ def script(rng, case, idx):
                         amt = abs(c.contents.get(s, 0.0))
                         vol = abs(c.volume)
                         relres = (RQ / amt if amt > 0 else 0.0) + (RQ / vol if vol > 0 else 0.0)
-                        vol_l = R.measure(c.contents, 'L')
-                        relres += (RQ / vol_l if vol_l > 0 else 0.0)      # get_volume('L') inside get_concentration
-                        # observer quanta upstream (create_solution / create_solution_from read moles rounded to q *mol*
-                        # and volumes rounded to q *mL*)
-                        amt_mol = R.canon(s, amt) if not s.is_enzyme() else 0.0
-                        relres += (RQ / amt_mol if amt_mol > 0 else 0.0) + (RQ / (vol_l * 1000) if vol_l > 0 else 0.0)
+                        # (the observers and the solution builders upstream keep what the storage units resolve: there is no
+                        # further quantum in moles or litres since fix 'convert_from_storage keeps what the storage unit
+                        # resolves')
                         rec(f'{label}.conc.{s.name}.{u}', 'concentration', u, [c.get_concentration(s, u), relres])
             line = (c.instructions or '').splitlines()[-1] if c.instructions else ''
             toks = I.tokens(line)
@@ -355,10 +352,9 @@ def resolution(cfg, unit):
     from pv import refmodel as R
     m, v, p = cfg.split('/')
     q = 10.0 ** (-int(p[1:]))
-    # storage quanta plus the observer quanta of the operations upstream (create_solution, create_solution_from and
-    # get_concentration read moles rounded to 10^-p *mol* and volumes rounded to 10^-p *L* / *mL*)
-    qmol = q * R.PREFIX[m[:-3]] + q      # mol
-    qvol = q * R.PREFIX[v[:-1]] + q      # L
+    # storage quanta (the operations upstream keep what the storage units resolve)
+    qmol = q * R.PREFIX[m[:-3]]      # mol
+    qvol = q * R.PREFIX[v[:-1]]      # L
     try:
         pf, base = R.split_unit(unit)
     except Exception:
